@@ -59,7 +59,7 @@ class C19(vlib.Check):
 
     # ------------------------------------------------------------------ generators
     def gen(self, rng, tier):
-        reps = 1 if tier == 'quick' else 6
+        reps = 1 if tier == 'quick' else 30
         lim = limits()
         # --- buffers
         for ty, L in lim.items():
@@ -79,7 +79,7 @@ class C19(vlib.Check):
                         yield 'buf %s 4 new,1,%s;copy,0,1;clear,1;del,1 failat=%d@1' % (ty, ua, k)
                         yield 'buf %s 4 new,1,%s;fill,0,%d,65;clear,1;del,1 failat=%d@1' % (ty, ua, a, k)
         # --- strings: a C04-style prefix, one faulted allocating operation, then use of everything
-        n = 300 if tier == 'quick' else 5000
+        n = 300 if tier == 'quick' else 60000
         for _ in range(n):
             c = self.string_case(rng)
             if c:
